@@ -50,8 +50,8 @@ func c14Amt(name string) *num.Amount {
 	return &a
 }
 
-// c14Vary: the optional parts are split into three groups (item and currencies / rows / payment and
-// preceding); one group varies over all its combinations while the others stay at their first alternative.
+// c14Vary: the optional parts are split into four groups (item and currencies / rows / payment and
+// preceding / line breakdown); one group varies over all its combinations while the others stay at their first alternative.
 var c14Focus int
 
 func c14Choice(group int, name string, n int) int {
@@ -62,7 +62,7 @@ func c14Choice(group int, name string, n int) int {
 }
 
 func H_C14_InvoiceCalculate() {
-	c14Focus = vrt.Choice("focus", 3)
+	c14Focus = vrt.Choice("focus", 4)
 	inv := &Invoice{IssueDate: cal.MakeDate(2024, 3, 1), Currency: c14Cur("cur")}
 	if vrt.Choice("tax", 2) == 1 {
 		inv.Tax = &Tax{}
@@ -97,6 +97,35 @@ func H_C14_InvoiceCalculate() {
 	}
 	if c14Choice(1, "lcharge", 2) == 1 {
 		l.Charges = []*LineCharge{{Rate: c14Amt("lcharge.rate"), Quantity: c14Amt("lcharge.qty")}}
+	}
+	if c14Focus == 3 {
+		// a breakdown of one or two sub-lines, each with or without an item, a price, supplied (stale) sum and
+		// total, an empty discount row; a nil sub-line
+		n := 1 + vrt.Choice("bd.n", 2)
+		for i := 0; i < n; i++ {
+			nm := []string{"bd0", "bd1"}[i]
+			sl := &SubLine{Quantity: num.MakeAmount(vrt.Int64In(nm+".qty", -100, 100), 0)}
+			switch vrt.Choice(nm+".item", 3) {
+			case 1:
+				sl.Item = &org.Item{Name: "y"}
+			case 2:
+				sl.Item = &org.Item{Name: "y", Price: c14Amt(nm + ".price")}
+			}
+			if vrt.Choice(nm+".supplied", 2) == 1 {
+				t := num.MakeAmount(500, 2)
+				u := t
+				sl.Sum, sl.Total = &t, &u
+			}
+			if vrt.Choice(nm+".disc", 2) == 1 {
+				sl.Discounts = []*LineDiscount{{}}
+			}
+			l.Breakdown = append(l.Breakdown, sl)
+		}
+		if vrt.Choice("bd.nil", 2) == 1 {
+			// a null entry in the breakdown array: known finding C14-null-sub-line (open)
+			l.Breakdown = append(l.Breakdown, nil)
+			vrt.Known("C14-null-sub-line", true)
+		}
 	}
 	inv.Lines = []*Line{l}
 	if c14Choice(1, "nil-line", 2) == 1 {
